@@ -178,6 +178,18 @@ def perform(p, scenario, arm, disarm):
         rv, g = p.create_object(s, t)
         disarm()
         return rv
+    if scenario == "CreateObjectRich":
+        # every value kind of the object file: boolean, number, byte string, mechanism set, attribute map
+        t = [(K.CKA_CLASS, K.CKO_SECRET_KEY), (K.CKA_KEY_TYPE, K.CKK_AES), (K.CKA_TOKEN, T), (K.CKA_PRIVATE, T),
+             (K.CKA_ID, b"n1"), (K.CKA_LABEL, b"rich object"), (K.CKA_VALUE, b"r" * 32), (K.CKA_SENSITIVE, F),
+             (K.CKA_EXTRACTABLE, T), (K.CKA_WRAP, T),
+             (K.CKA_ALLOWED_MECHANISMS, [K.CKM_AES_CBC, K.CKM_AES_ECB, K.CKM_AES_KEY_WRAP]),
+             (K.CKA_WRAP_TEMPLATE, [(K.CKA_ENCRYPT, T), (K.CKA_LABEL, b"w")]),
+             (K.CKA_UNWRAP_TEMPLATE, [(K.CKA_KEY_TYPE, K.CKK_AES)])]
+        arm()
+        rv, g = p.create_object(s, t)
+        disarm()
+        return rv
     if scenario == "GenerateKey":
         arm()
         rv, g = p.generate_key(s, Mech(K.CKM_AES_KEY_GEN), [(K.CKA_TOKEN, T), (K.CKA_PRIVATE, T), (K.CKA_ID, b"n1"),
@@ -421,31 +433,35 @@ def torn_main(lib, outp, workdir, shim, jobs):
     """Torn writes: the file of an object that was being created holds only the first L bytes of what the call would have
     written - for EVERY L.  `boundary`: the cut falls on the start of an attribute record or inside the record's first
     word (the reader takes a short first word for the end of the file, so this is the same file as the one cut at the record
-    start - what the as-built multi-step creation can leave anyway).  (Crash points at operation boundaries cannot produce these; a write torn by the kernel can.)"""
+    start - what the as-built multi-step creation can leave anyway).  (Crash points at operation boundaries cannot produce
+    these; a write torn by the kernel can.)  Two objects: a plain one and one with every value kind of the file format."""
     from . import tokdec
-    sc = "CreateObjectPrivate"
     base = os.path.join(workdir, "base")
     prepare(lib, base)
     old = run_recover(lib, base)
-    wd = os.path.join(workdir, "log-torn")
-    shutil.copytree(base, wd)
-    before = listing(os.path.join(wd, "tokens"))
-    log = os.path.join(workdir, "ops-torn.ndjson")
-    rc, out = run_child(lib, wd, sc, "log", 0, shim, log=log)
-    new = run_recover(lib, wd)
-    added = sorted(f for f in listing(os.path.join(wd, "tokens")) - before if f.endswith(".object"))
     f = open(outp, "w")
-    ops, newfiles = normalise_ops(log, before) if os.path.exists(log) else ([], [])
-    f.write(json.dumps(dict(e="Log", scenario=sc, rv=out.get("rv", "?"), ops=ops, newfiles=newfiles, old=old, new=new, ro=False)) + "\n")
-    if len(added) == 1:
-        rel = added[0]
-        data = open(os.path.join(wd, "tokens", rel), "rb").read()
-        bounds = set(tokdec.record_boundaries(data))
-        with cf.ThreadPoolExecutor(max_workers=jobs) as ex:
-            results = list(ex.map(torn_experiment, [(lib, base, workdir, rel, data, L) for L in range(0, len(data))]))
-        for r in results:
-            f.write(json.dumps(dict(e="Torn", scenario=sc, L=r["L"], size=len(data), boundary=any(b <= r["L"] < b + 8 for b in bounds), rec=r["rec"])) + "\n")
-    shutil.rmtree(wd, ignore_errors=True)
+    for sc in ("CreateObjectPrivate", "CreateObjectRich"):
+        wd = os.path.join(workdir, "log-torn-" + sc)
+        shutil.copytree(base, wd)
+        before = listing(os.path.join(wd, "tokens"))
+        log = os.path.join(workdir, "ops-torn-%s.ndjson" % sc)
+        rc, out = run_child(lib, wd, sc, "log", 0, shim, log=log)
+        new = run_recover(lib, wd)
+        added = sorted(x for x in listing(os.path.join(wd, "tokens")) - before if x.endswith(".object"))
+        ops, newfiles = normalise_ops(log, before) if os.path.exists(log) else ([], [])
+        f.write(json.dumps(dict(e="Log", scenario=sc, rv=out.get("rv", "?"), ops=ops, newfiles=newfiles, old=old, new=new,
+                                ro=False)) + "\n")
+        if len(added) == 1 and out.get("rv") == "OK":
+            rel = added[0]
+            data = open(os.path.join(wd, "tokens", rel), "rb").read()
+            bounds = tokdec.record_boundaries(data)
+            with cf.ThreadPoolExecutor(max_workers=jobs) as ex:
+                results = list(ex.map(torn_experiment, [(lib, base, os.path.join(workdir, sc), rel, data, L)
+                                                        for L in range(0, len(data))]))
+            for r in results:
+                f.write(json.dumps(dict(e="Torn", scenario=sc, L=r["L"], size=len(data),
+                                        boundary=any(b <= r["L"] < b + 8 for b in bounds), rec=r["rec"])) + "\n")
+        shutil.rmtree(wd, ignore_errors=True)
     f.close()
 
 
